@@ -193,14 +193,14 @@ func ruleC04(c *Check) {
 					neg = true
 				}
 			}
-			// or the negated conjunction of exactly the trigger facts
+			// or the disjunction of exactly the negated trigger facts (¬(t1 ∧ t2) in normal form)
+			var want []string
+			for _, tf := range trig {
+				want = append(want, tf.Not().String())
+			}
+			sort.Strings(want)
 			for _, g := range af {
-				if !g.Neg || g.T.Op != "&&" {
-					continue
-				}
-				cs := conjuncts(g.T)
-				sort.Strings(cs)
-				if strings.Join(cs, "|") == strings.Join(trig.Sorted(), "|") {
+				if ds := g.Disjuncts(); ds != nil && strings.Join(ds, "|") == strings.Join(want, "|") {
 					neg = true
 				}
 			}
@@ -262,6 +262,10 @@ func (c *Check) slashTarget(rule, unit string, e *Eff, R string, gBinding *Func)
 	sf := c.paramTerm(rule, "KeySlashFraction")
 	amt := stripConv(e.Amount)
 	ok := false
+	vars := c.retVariants(amt)
+	if len(vars) == 1 {
+		amt = stripConv(vars[0])
+	}
 	if b, m := amt.Match("(sdk.NewCoins (sdk.NewCoin $D $X))"); m && b["$D"].String() == bd {
 		dep := fmt.Sprintf("(sdk.Coins.AmountOf (.ServiceBinding.Deposit %s) %s)", B, bd)
 		ok = isTruncMul(b["$X"], dep, sf)
@@ -294,27 +298,19 @@ func (c *Check) slashInternals(s *Func, gBinding *Func) {
 		M := fmt.Sprintf("(keeper.Keeper.getMinDeposit (%s (.ServiceBinding.ServiceName %s) (.ServiceBinding.Provider %s)))", gPricing.Name, L, L)
 		var verdict bool
 		var detail string
+		gteT := mk("sdk.Coins.IsAllGTE", dep, parseTerm(M))
+		insufficient := mk("&&", availL.T, mk("!", gteT)) // available ∧ post-slash deposit below the minimum
+		dt := field("ServiceBinding", "DisabledTime", B)
 		switch {
-		case pp.Facts.Has(availL):
-			gte := Fact{T: mk("sdk.Coins.IsAllGTE", dep, parseTerm(M))}
-			switch {
-			case pp.Facts.Has(gte):
-				verdict = avail.Eq(availL.T)
-				detail = "available ∧ post-slash deposit ≥ minimum ⇒ stays available"
-			case pp.Facts.Has(gte.Not()):
-				dt := field("ServiceBinding", "DisabledTime", B)
-				verdict = avail.IsAt("#false") && dt.IsAt("BlockTime")
-				detail = "available ∧ post-slash deposit < minimum ⇒ Available=false ∧ DisabledTime=block time (stored: " + shortTerm(avail) + ", " + shortTerm(dt) + ")"
-			default:
-				verdict = false
-				detail = "available binding is persisted without comparing the stored (post-slash) deposit " + shortTerm(dep) + " with getMinDeposit(GetPricing(binding))"
-			}
-		case pp.Facts.Has(availL.Not()):
+		case pp.Facts.Holds(insufficient, true):
+			verdict = avail.IsAt("#false") && dt.IsAt("BlockTime")
+			detail = "available ∧ post-slash deposit < minimum ⇒ Available=false ∧ DisabledTime=block time (stored: " + shortTerm(avail) + ", " + shortTerm(dt) + ")"
+		case pp.Facts.Holds(insufficient, false):
 			verdict = avail.Eq(availL.T)
-			detail = "unavailable binding: availability unchanged"
+			detail = "unavailable, or post-slash deposit ≥ minimum ⇒ availability unchanged"
 		default:
 			verdict = false
-			detail = "path does not test binding.Available"
+			detail = "the binding is persisted without deciding (Available ∧ stored post-slash deposit " + shortTerm(dep) + " < getMinDeposit(GetPricing(binding)))"
 		}
 		k := detail
 		if seen[k] {
